@@ -202,6 +202,11 @@ def bottleneck_matching(dgm1, dgm2, matching, labels=["dgm1", "dgm2"], ax=None):
     cp = np.cos(np.pi / 4)
     sp = np.sin(np.pi / 4)
     R = np.array([[cp, -sp], [sp, cp]])
+    # the rows of `matching` index the points with finite death (bottleneck drops the others)
+    if dgm1.size:
+        dgm1 = dgm1[np.isfinite(dgm1[:, 1])]
+    if dgm2.size:
+        dgm2 = dgm2[np.isfinite(dgm2[:, 1])]
     if dgm1.size == 0:
         dgm1 = np.array([[0, 0]])
     if dgm2.size == 0:
@@ -268,6 +273,14 @@ def wasserstein_matching(dgm1, dgm2, matching, labels=["dgm1", "dgm2"], ax=None)
         dgm1 = np.array([[0, 0]])
     if dgm2.size == 0:
         dgm2 = np.array([[0, 0]])
+    shown1, shown2 = dgm1, dgm2
+    # the rows of `matching` index the points with finite death (wasserstein drops the others)
+    dgm1 = dgm1[np.isfinite(dgm1[:, 1])]
+    dgm2 = dgm2[np.isfinite(dgm2[:, 1])]
+    if dgm1.size == 0:
+        dgm1 = np.array([[0, 0]])
+    if dgm2.size == 0:
+        dgm2 = np.array([[0, 0]])
     dgm1Rot = dgm1.dot(R)
     dgm2Rot = dgm2.dot(R)
     for [i, j, d] in matching:
@@ -285,4 +298,4 @@ def wasserstein_matching(dgm1, dgm2, matching, labels=["dgm1", "dgm2"], ax=None)
             else:
                 ax.plot([dgm1[i, 0], dgm2[j, 0]], [dgm1[i, 1], dgm2[j, 1]], "g")
 
-    plot_diagrams([dgm1, dgm2], labels=labels, ax=ax)
+    plot_diagrams([shown1, shown2], labels=labels, ax=ax)
